@@ -120,3 +120,17 @@ Definition read_protocol_handshake (code size : N) (payload : bytes) : pclass :=
        | None => PhBadBody
        | Some id => if forallb (fun b => b2n b =? 0) id then PhZeroId else PhOk id
        end.
+
+(* ---- p2p/peer.go handle / p2p/rlpx.go readProtocolHandshake, discMsg:
+   `var reason [1]DiscReason; rlp.Decode(msg.Payload, &reason); return reason[0]` — the decode error is
+   ignored, so the reason is the first element if the payload is a list whose first element is a
+   canonical uint (more elements: "too many elements", but reason[0] is already set), else 0.
+   Any uint64 can come out: DiscReason.String / Error must be total over uint64; the table has
+   disc_table_len entries. *)
+Definition disc_table_len : N := Eval compute in g_disc_table_len.
+Definition disc_reason (payload : bytes) : N :=
+  match s_list payload with
+  | None => 0
+  | Some (pl, _) => match s_uint 64 pl with Some (n, _) => n | None => 0 end
+  end.
+Definition disc_reason_named (n : N) : bool := n <? disc_table_len.   (* else "unknown disconnect reason %d" *)
